@@ -190,12 +190,14 @@ def defaultView {κ ρ} (handleCtx : Msg → κ → ρ) : View → κ → ρ := 
 abbrev Mw (κ ρ : Type) := Option κ → Msg → (Msg → ρ) → ρ
 
 /-- `Next::run`.  `fwdCtx` is a fact of the source: the `Next` handed to a middleware is rebuilt with
-`ctx: self.ctx` (true) or loses the context (false – the leaf is then reached through `handle`). -/
+`ctx: self.ctx` (true) or loses the context (false – `next.ctx()` is then `None` for every link and the
+leaf is reached through `handle`).  What a middleware sees through `next.ctx()` is the context of the
+`Next` it is handed, i.e. of the rebuilt one. -/
 def nextRun {κ ρ} (fwdCtx : Bool) (h : Handler κ ρ) (ctx : Option κ) : List (Mw κ ρ) → Msg → ρ
   | [], req => match ctx with
     | some c => h.handleCtx req c
     | none => h.handle req
-  | m :: rest, req => m ctx req (nextRun fwdCtx h (if fwdCtx then ctx else none) rest)
+  | m :: rest, req => m (if fwdCtx then ctx else none) req (nextRun fwdCtx h (if fwdCtx then ctx else none) rest)
 
 /-- `MiddlewarePipeline`: overrides `handle`, `handle_with_ctx`; `handle_view` is the default;
 `execution` forwards when the source says so (`Gen`). -/
